@@ -16,7 +16,7 @@ import z3
 from pyvc.core import (SV, SInt, SBool, SSeq, SDict, Obj, Val, VNone, BoolS, IntS, to_val, to_int, to_bool_term,
                        run, run_raises)
 from pyvc.core import Unsupported
-from pyvc.driver import Ob
+from pyvc.driver import Ob, cover_hyps
 from pyvc.ground import Q
 from pyvc.expr import seq_of
 from props import routine_world as rw
@@ -47,7 +47,7 @@ def call_clauses(chk, I, mod, cls, kind):
             # engine limit met while stating the clauses (lazily evaluated comprehension bodies): undischarged, not a crash
             del chk.obs[n0:]
             _fail_all(chk, func, CALL_CLAUSES, f"p{pi}", path.hyps, {"engine": f"Unsupported {e}"})
-    chk.add(Ob(func, "cover", "pre", results[0][0].hyps, z3.BoolVal(True), expect="sat"))
+    chk.add(Ob(func, "cover", "pre", cover_hyps(results), z3.BoolVal(True), expect="sat"))
 
 
 def _call_one(chk, func, kind, is_un, pi, path, out, cur):
@@ -150,7 +150,7 @@ def init_clauses(chk, I, mod, cls, kind):
     func, results = R.run_init(I, mod, cls, kind)
     for pi, (path, out, obls, writes, cur) in enumerate(results):
         _init_one(chk, func, kind, pi, path, out, cur)
-    chk.add(Ob(func, "cover", "pre", results[0][0].hyps, z3.BoolVal(True), expect="sat"))
+    chk.add(Ob(func, "cover", "pre", cover_hyps(results), z3.BoolVal(True), expect="sat"))
 
 
 def _init_one(chk, func, kind, pi, path, out, cur):
@@ -291,7 +291,7 @@ def fields_by_var_clauses(chk, I, mod, cls):
     results = I.run_function(func, mk)
     for pi, (path, out, obls, writes, cur) in enumerate(results):
         _fbv_one(chk, func, pi, path, out, obls, cur, hint_n, hidx, hint_name, spec_value, noinit if is_un else None)
-    chk.add(Ob(func, "cover", "pre", results[0][0].hyps, z3.BoolVal(True), expect="sat"))
+    chk.add(Ob(func, "cover", "pre", cover_hyps(results), z3.BoolVal(True), expect="sat"))
 
 
 def _fbv_one(chk, func, pi, path, out, obls, cur, hint_n, hidx, hint_name, spec_value, noinit=None):
